@@ -9,12 +9,21 @@
      epause / econt       engine.Pause() returned to the monitor / engine.Continue() called
      acc what             the monitor called into simulation state during the open request
                           (engine time, TickLater, a buffer's level) -- observed at the call
+     breq r ep / bwin r / bclose r / brsp r
+                          a second, OVERLAPPING request: an inspection whose response is tens of
+                          megabytes and whose client stops reading after the first byte (bwin)
+                          until bclose, so that its handler stays inside the inspection, blocked
+                          on the socket (the driver keeps bwin/bclose only when more bytes than
+                          the kernel can buffer arrived after bclose)
    The abstract rule of C40: an access of simulation state by a request must not happen
    while a handler is executing.  Two ways of knowing that it did:
      observed_call            an acc record while a handler is running;
      request_within_handler   a request of an endpoint class that reads component state by
                               reflection (no call to observe) began and completed while one
-                              and the same handler execution was in progress.
+                              and the same handler execution was in progress;
+     window_of_stalled_request  a handler started (or was running) between bwin and bclose of
+                              an overlapping inspection: the engine did not stay held until
+                              the last inspection finished.
    (/api/progress is not in Reflective: the counters it reads are guarded by the bar's own
    mutex by design, so an overlap alone is not a conflict -- the race detector judges it.)
    Conflicts do not stop the validation: each is printed as a CASE (endpoint, class,
@@ -22,48 +31,61 @@
    log is rejected (REJECTED line).                                                *)
 EXTENDS Integers, FiniteSets, Sequences, TLC, TraceCommon
 CONSTANTS Reflective          \* endpoint classes whose access cannot be observed at a call
-VARIABLES running, open, held, scn, l
-tvars == <<running, open, held, scn, l>>
+VARIABLES running, open, bg, held, scn, l
+tvars == <<running, open, bg, held, scn, l>>
 Ev == Trace[l]
 None == [r |-> -1]
 
-TInit == running = {} /\ open = None /\ held = FALSE /\ scn = 0 /\ l = 1 /\ TraceMarkInit
+TInit == running = {} /\ open = None /\ bg = None /\ held = FALSE /\ scn = 0 /\ l = 1 /\ TraceMarkInit
 
 Class(h) == IF h THEN "relies_on_nonblocking_pause" ELSE "no_pause_at_all"
-Conflict(ep, h, how, what) ==
-    PrintT(<<"CASE", ToJson([endpoint |-> ep, class |-> Class(h), symptom |-> "access_while_handler_running",
+ConflictS(ep, h, sym, how, what) ==
+    PrintT(<<"CASE", ToJson([endpoint |-> ep, class |-> Class(h), symptom |-> sym,
                              how |-> how, what |-> what, scn |-> scn, line |-> l])>>)
+Conflict(ep, h, how, what) == ConflictS(ep, h, "access_while_handler_running", how, what)
+InWindow == bg # None /\ bg.win
+(* the engine was not kept held until the end of an overlapping inspection *)
+ConflictW(ep, sym) ==
+    PrintT(<<"CASE", ToJson([endpoint |-> ep, class |-> IF held THEN "relies_on_nonblocking_pause" ELSE "pause_released_under_inspection",
+                             symptom |-> sym, how |-> "window_of_stalled_request", what |-> "reflection", scn |-> scn, line |-> l])>>)
 
-TRun   == Ev.e = "run" /\ running = {} /\ UNCHANGED <<running, open, held, scn>>
-TRet   == Ev.e = "ret" /\ running = {} /\ UNCHANGED <<running, open, held, scn>>
+TRun   == Ev.e = "run" /\ running = {} /\ UNCHANGED <<running, open, bg, held, scn>>
+TRet   == Ev.e = "ret" /\ running = {} /\ UNCHANGED <<running, open, bg, held, scn>>
 TStart == /\ Ev.e = "start" /\ running = {}
           /\ running' = {Ev.id}
           /\ open' = (IF open = None THEN open ELSE [open EXCEPT !.cover = FALSE])
-          /\ UNCHANGED <<held, scn>>
+          /\ UNCHANGED <<bg, held, scn>>
+          /\ InWindow => ConflictW(bg.ep, "handler_started_during_access")
 TEnd   == /\ Ev.e = "end" /\ running = {Ev.id}
           /\ running' = {}
           /\ open' = (IF open = None THEN open ELSE [open EXCEPT !.cover = FALSE])
-          /\ UNCHANGED <<held, scn>>
+          /\ UNCHANGED <<bg, held, scn>>
 TReq   == /\ Ev.e = "req" /\ open = None
           /\ open' = [r |-> Ev.r, ep |-> Ev.ep, cover |-> running # {}, paused |-> held]
-          /\ UNCHANGED <<running, held, scn>>
-TEPause == /\ Ev.e = "epause" /\ open # None
-           /\ held' = TRUE /\ open' = [open EXCEPT !.paused = TRUE]
-           /\ UNCHANGED <<running, scn>>
-TECont == /\ Ev.e = "econt" /\ open # None
+          /\ UNCHANGED <<running, bg, held, scn>>
+TEPause == /\ Ev.e = "epause" /\ (open # None \/ bg # None)
+           /\ held' = TRUE /\ open' = (IF open = None THEN open ELSE [open EXCEPT !.paused = TRUE])
+           /\ UNCHANGED <<running, bg, scn>>
+TECont == /\ Ev.e = "econt" /\ (open # None \/ bg # None)
           /\ held' = FALSE
-          /\ UNCHANGED <<running, open, scn>>
-TAcc   == /\ Ev.e = "acc" /\ open # None
-          /\ UNCHANGED <<running, open, held, scn>>
-          /\ running # {} => Conflict(open.ep, held, "observed_call", Ev.what)
+          /\ UNCHANGED <<running, open, bg, scn>>
+TAcc   == /\ Ev.e = "acc" /\ (open # None \/ bg # None)
+          /\ UNCHANGED <<running, open, bg, held, scn>>
+          /\ running # {} => Conflict(IF open # None THEN open.ep ELSE bg.ep, held, "observed_call", Ev.what)
 TRsp   == /\ Ev.e = "rsp" /\ open # None /\ open.r = Ev.r /\ open.ep = Ev.ep
           /\ open' = None
-          /\ UNCHANGED <<running, held, scn>>
+          /\ UNCHANGED <<running, bg, held, scn>>
           /\ (open.ep \in Reflective /\ open.cover /\ running # {}) =>
                  Conflict(open.ep, open.paused, "request_within_handler", "reflection")
-TReset == /\ Ev.e = "reset" /\ open = None
-          /\ running' = {} /\ open' = None /\ held' = FALSE /\ scn' = Ev.scn
-TNext == l <= TraceLen /\ l' = l + 1 /\ (TRun \/ TRet \/ TStart \/ TEnd \/ TReq \/ TEPause \/ TECont \/ TAcc \/ TRsp \/ TReset)
+TBReq   == Ev.e = "breq" /\ bg = None /\ bg' = [r |-> Ev.r, ep |-> Ev.ep, win |-> FALSE] /\ UNCHANGED <<running, open, held, scn>>
+TBWin   == /\ Ev.e = "bwin" /\ bg # None /\ bg.r = Ev.r /\ ~bg.win
+           /\ bg' = [bg EXCEPT !.win = TRUE] /\ UNCHANGED <<running, open, held, scn>>
+           /\ running # {} => ConflictW(bg.ep, "access_while_handler_running")
+TBClose == Ev.e = "bclose" /\ bg # None /\ bg.r = Ev.r /\ bg.win /\ bg' = [bg EXCEPT !.win = FALSE] /\ UNCHANGED <<running, open, held, scn>>
+TBRsp   == Ev.e = "brsp" /\ bg # None /\ bg.r = Ev.r /\ ~bg.win /\ bg' = None /\ UNCHANGED <<running, open, held, scn>>
+TReset == /\ Ev.e = "reset" /\ open = None /\ bg = None
+          /\ running' = {} /\ open' = None /\ bg' = None /\ held' = FALSE /\ scn' = Ev.scn
+TNext == l <= TraceLen /\ l' = l + 1 /\ (TRun \/ TRet \/ TStart \/ TEnd \/ TReq \/ TEPause \/ TECont \/ TAcc \/ TRsp \/ TBReq \/ TBWin \/ TBClose \/ TBRsp \/ TReset)
 TSpec == TInit /\ [][TNext]_tvars
 Mark == TraceMark(l)
 OneHandler == Cardinality(running) <= 1
